@@ -467,6 +467,21 @@ func (fr *Frame) unop(x *ssa.UnOp) Value {
 		}
 		if sel, isSel := v.(PtrSel); isSel {
 			n := len(sel.Alts)
+			// a table of functions read at a symbolic index: a selected function value
+			allFn := true
+			var fns []Value
+			for _, c := range sel.Alts {
+				fv := it.loadValue(c)
+				switch fv.(type) {
+				case FuncV, ClosureV:
+					fns = append(fns, fv)
+				default:
+					allFn = false
+				}
+			}
+			if allFn && n >= 2 {
+				return FuncSel{Fns: fns, Sel: sel}
+			}
 			acc := it.loadValue(sel.Alts[n-1])
 			for i := n - 2; i >= 0; i-- {
 				p, cv := sel.condValue(i)
